@@ -1,0 +1,77 @@
+//! Forwarding wrapper around the request dispatcher for verification.
+
+use std::sync::Arc;
+use http_body_util::BodyExt;
+use rpki::rtr::server::NotifySender;
+use crate::config::Config;
+use crate::metrics::RtrServerMetrics;
+use crate::payload::SharedHistory;
+use super::dispatch::State;
+use super::request::Request;
+
+/// A response taken apart: status, headers, body chunks as produced.
+pub struct PlainResponse {
+    pub status: u16,
+    pub headers: Vec<(String, String)>,
+    pub chunks: Vec<Vec<u8>>,
+}
+
+impl PlainResponse {
+    pub fn header(&self, name: &str) -> Option<&str> {
+        self.headers.iter().find(|(k, _)| {
+            k.eq_ignore_ascii_case(name)
+        }).map(|(_, v)| v.as_str())
+    }
+
+    pub fn body(&self) -> Vec<u8> {
+        self.chunks.concat()
+    }
+}
+
+/// The real dispatcher state behind a plain interface.
+pub struct Handler(State);
+
+impl Handler {
+    pub fn new(
+        config: &Config,
+        history: SharedHistory,
+        rtr_metrics: Arc<RtrServerMetrics>,
+        notify: NotifySender,
+    ) -> Self {
+        Handler(State::new(config, history, rtr_metrics, None, notify))
+    }
+
+    /// Handles a body-less request through the real dispatcher.
+    pub async fn request(
+        &self, method: &str, uri: &str, headers: &[(String, String)]
+    ) -> PlainResponse {
+        let mut builder = hyper::Request::builder().method(method).uri(uri);
+        for (key, value) in headers {
+            builder = builder.header(key.as_str(), value.as_str());
+        }
+        let (parts, _) = builder.body(()).expect(
+            "verif: invalid request"
+        ).into_parts();
+        let response = self.0.handle_request(
+            Request::new(parts, None)
+        ).await.into_hyper().unwrap();
+        let (parts, mut body) = response.into_parts();
+        let mut chunks = Vec::new();
+        while let Some(frame) = body.frame().await {
+            let Ok(frame) = frame;
+            if let Ok(data) = frame.into_data() {
+                chunks.push(data.to_vec())
+            }
+        }
+        PlainResponse {
+            status: parts.status.as_u16(),
+            headers: parts.headers.iter().map(|(k, v)| {
+                (
+                    k.as_str().to_string(),
+                    String::from_utf8_lossy(v.as_bytes()).into_owned()
+                )
+            }).collect(),
+            chunks
+        }
+    }
+}
